@@ -20,6 +20,9 @@ package internal
 //@   atcall (*Mutex).Lock@* requires @nothing-but-the-members-is-locked false
 //@   atcall (*RWMutex).Lock@* requires @nothing-but-the-members-is-locked false
 //@   mustcall SortFunc@1 when @sorted-before-locking true
+//@   atcall Locker.Unlock@* requires @keeps-every-member-it-acquired false
+//@   atcall SortableMutex.Unlock@* requires @keeps-every-member-it-acquired false
+//@   atcall (*Mutex).Unlock@* requires @keeps-every-member-it-acquired false
 //@ func SortableMutexes.Unlock
 //@   property C10 C05
 //@   trusted
